@@ -23,6 +23,9 @@ def run(prop, tier, root=None, write=True, quiet=False, replay_dir=None):
     try:
         proj = Project(root)
         props.PROPS[prop](proj, rep, tier)
+        if tier == 'thorough' and os.environ.get('VERIF_SELFTEST') == '1':
+            from sa import selftest
+            selftest.run(prop, rep)
     except AnalysisError as e:
         rep.error(str(e))
     except Exception:
